@@ -1869,7 +1869,9 @@ EGLPNUM_TYPENAME_QSLIB_INTERFACE int EGLPNUM_TYPENAME_QSwrite_basis (
 
 CLEANUP:
 
-	EGLPNUM_TYPENAME_ILLlp_basis_free (basis);
+	/* only the local conversion of B is ours to free: with B == NULL, basis
+	 * points to the problem's own basis, which must stay in place */
+	EGLPNUM_TYPENAME_ILLlp_basis_free (&iB);
 	EG_RETURN (rval);
 }
 
